@@ -9,8 +9,17 @@ Translated, fail-closed (anything outside the recognised subset raises Translate
 The statement subset is the one these functions are written in: NAME = OrderedDict(), for k, v in X.items(): <one update>,
 if <condition>: ... return, warnings.warn(...), return NAME / OrderedDict() / deepcopy(NAME); conditions over dict truthiness,
 not/and/or and (in)equality of dict(A), dict(B) (order-insensitive) or of the bare OrderedDicts (order-SENSITIVE); exponent
-expressions over + - * / unary minus, integer literals, `0 if k not in d else d[k]` and d[k].
+expressions over + - * / unary minus, integer literals, `0 if k not in d else d[k]` / `d[k] if k in d else 0` (d[k] only
+under such a membership guard: an unguarded d[k] may raise KeyError) and `d.get(k, 0)`.
+Common maintenance rewrites are accepted and NORMALISED to the same Gallina shapes (so that the proofs keep checking):
+  * `OrderedDict((k, e) for k, v in X.items())` = the loop `new = OrderedDict(); for k, v in X.items(): new[k] = e`;
+  * a call statement of a private module-level helper that only mutates the dict passed as an argument (no return, does not
+    rebind its parameters) is INLINED: parameters are replaced by the argument names / boolean constants (keyword and default
+    values included), `a if flag else b` with a constant flag is decided, the helper's local names are renamed apart;
+  * `if c: ... return ... else: ...`, and early returns in any order.
+Everything else still raises TranslateError; an ill-typed result is rejected by coqc (the build breaks).
 """
+import copy
 import ast
 import os
 
@@ -47,8 +56,11 @@ def _ident(s):
 class FnTr:
     """one function of the dict-program subset -> Gallina"""
 
-    def __init__(self, fn, mutator=False):
+    def __init__(self, fn, mutator=False, helpers=None):
         self.fn, self.mutator = fn, mutator
+        self.helpers = helpers or {}
+        self.fresh = 0
+        self.depth = 0
         self.params = [a.arg for a in fn.args.args]
         if fn.args.vararg or fn.args.kwarg or fn.args.kwonlyargs or fn.args.defaults:
             self.err(fn, "parameters")
@@ -62,20 +74,37 @@ class FnTr:
         return "v_" + name
 
     # ---- exponent (Q) expressions
-    def qexpr(self, e):
+    def qexpr(self, e, guarded=frozenset()):
+        """guarded: set of (dict name, key source text) for which `key in dict` is known to hold here"""
         if isinstance(e, ast.Name):
             return self.v(e.id)
         if isinstance(e, ast.Constant) and isinstance(e.value, int) and not isinstance(e.value, bool):
             return "({} # 1)".format(e.value)
         if isinstance(e, ast.UnaryOp) and isinstance(e.op, ast.USub):
-            return "(- {})".format(self.qexpr(e.operand))
+            return "(- {})".format(self.qexpr(e.operand, guarded))
         if isinstance(e, ast.BinOp) and type(e.op) in (ast.Add, ast.Sub, ast.Mult, ast.Div):
             op = {ast.Add: "+", ast.Sub: "-", ast.Mult: "*", ast.Div: "/"}[type(e.op)]
-            return "({} {} {})".format(self.qexpr(e.left), op, self.qexpr(e.right))
+            return "({} {} {})".format(self.qexpr(e.left, guarded), op, self.qexpr(e.right, guarded))
         if isinstance(e, ast.Subscript) and isinstance(e.value, ast.Name):
-            return "(u_get {} {})".format(self.v(e.value.id), self.qexpr(e.slice))
+            if (e.value.id, ast.unparse(e.slice)) not in guarded:
+                self.err(e, "d[k] without a membership guard (may raise KeyError)")
+            return "(u_get {} {})".format(self.v(e.value.id), self.qexpr(e.slice, guarded))
+        if isinstance(e, ast.Call) and isinstance(e.func, ast.Attribute) and e.func.attr == "get" \
+                and isinstance(e.func.value, ast.Name) and len(e.args) == 2 and not e.keywords \
+                and isinstance(e.args[1], ast.Constant) and e.args[1].value == 0 and not isinstance(e.args[1].value, bool):
+            return "(u_get {} {})".format(self.v(e.func.value.id), self.qexpr(e.args[0], guarded))   # d.get(k, 0)
         if isinstance(e, ast.IfExp):
-            return "(if {} then {} else {})".format(self.cond(e.test), self.qexpr(e.body), self.qexpr(e.orelse))
+            t = e.test
+            if isinstance(t, ast.Constant) and isinstance(t.value, bool):      # decided after inlining a helper
+                return self.qexpr(e.body if t.value else e.orelse, guarded)
+            g_then, g_else = guarded, guarded
+            if isinstance(t, ast.Compare) and len(t.ops) == 1 and isinstance(t.comparators[0], ast.Name):
+                key = (t.comparators[0].id, ast.unparse(t.left))
+                if isinstance(t.ops[0], ast.In):
+                    g_then = guarded | {key}
+                elif isinstance(t.ops[0], ast.NotIn):
+                    g_else = guarded | {key}
+            return "(if {} then {} else {})".format(self.cond(t), self.qexpr(e.body, g_then), self.qexpr(e.orelse, g_else))
         self.err(e, "exponent expression " + ast.dump(e)[:60])
 
     # ---- conditions
@@ -87,6 +116,8 @@ class FnTr:
         return None
 
     def cond(self, e):
+        if isinstance(e, ast.Constant) and isinstance(e.value, bool):
+            return "true" if e.value else "false"
         if isinstance(e, ast.Name):
             return "(negb (u_empty {}))".format(self.v(e.id))
         if isinstance(e, ast.UnaryOp) and isinstance(e.op, ast.Not):
@@ -117,9 +148,81 @@ class FnTr:
         if isinstance(e, ast.Call) and isinstance(e.func, ast.Name) and not e.keywords:
             if e.func.id == "OrderedDict" and not e.args:
                 return "[]"
+            if e.func.id == "OrderedDict" and len(e.args) == 1 and isinstance(e.args[0], ast.GeneratorExp):
+                return self.genexp(e.args[0])
             if e.func.id == "deepcopy" and len(e.args) == 1 and isinstance(e.args[0], ast.Name):
                 return self.v(e.args[0].id)
         self.err(e, "dict expression " + ast.dump(e)[:60])
+
+    def genexp(self, g):
+        """OrderedDict((k, e) for k, v in X.items()): the pairs are inserted one after the other into a new dict"""
+        if len(g.generators) != 1:
+            self.err(g, "generator expression")
+        c = g.generators[0]
+        if c.ifs or c.is_async or not (isinstance(c.target, ast.Tuple) and len(c.target.elts) == 2
+                                       and all(isinstance(x, ast.Name) for x in c.target.elts)) \
+                or not (isinstance(c.iter, ast.Call) and isinstance(c.iter.func, ast.Attribute) and c.iter.func.attr == "items"
+                        and not c.iter.args and isinstance(c.iter.func.value, ast.Name)) \
+                or not (isinstance(g.elt, ast.Tuple) and len(g.elt.elts) == 2):
+            self.err(g, "generator expression")
+        k, v = c.target.elts[0].id, c.target.elts[1].id
+        self.fresh += 1
+        acc = "v__new{}".format(self.fresh)
+        return "(fold_left (fun {a} kv => let '({k}, {v}) := kv in u_set {a} {ke} {ve}) {src} [])".format(
+            a=acc, k=self.v(k), v=self.v(v), ke=self.qexpr(g.elt.elts[0]), ve=self.qexpr(g.elt.elts[1]),
+            src=self.v(c.iter.func.value.id))
+
+    # ---- inlining of private helpers that mutate a dict argument
+    def inline(self, call):
+        """the statements of the helper, with parameters replaced by the arguments, or None if [call] is no helper call"""
+        if not (isinstance(call.func, ast.Name) and call.func.id in self.helpers):
+            return None
+        h = self.helpers[call.func.id]
+        if self.depth >= 3:
+            self.err(call, "helper calls nested too deeply")
+        a = h.args
+        if a.vararg or a.kwarg or a.kwonlyargs or a.posonlyargs:
+            self.err(call, "helper {}: parameter kinds".format(h.name))
+        params = [x.arg for x in a.args]
+        bound = {}
+        if len(call.args) > len(params):
+            self.err(call, "helper {}: too many arguments".format(h.name))
+        for pname, arg in zip(params, call.args):
+            bound[pname] = arg
+        for kw in call.keywords:
+            if kw.arg is None or kw.arg not in params or kw.arg in bound:
+                self.err(call, "helper {}: keyword argument".format(h.name))
+            bound[kw.arg] = kw.value
+        for pname, d in zip(params[len(params) - len(a.defaults):], a.defaults):
+            bound.setdefault(pname, d)
+        if set(bound) != set(params):
+            self.err(call, "helper {}: missing argument".format(h.name))
+        for pname, arg in bound.items():
+            if not (isinstance(arg, ast.Name) or (isinstance(arg, ast.Constant) and isinstance(arg.value, bool))):
+                self.err(call, "helper {}: argument {} is neither a name nor a boolean constant".format(h.name, pname))
+        body = copy.deepcopy(translate.strip_doc(h.body))
+        local = set()
+        for node in body:
+            for n in ast.walk(node):
+                if isinstance(n, (ast.Return, ast.Global, ast.Nonlocal, ast.Yield, ast.YieldFrom, ast.Lambda, ast.FunctionDef)):
+                    self.err(call, "helper {}: {} in a helper".format(h.name, type(n).__name__))
+                if isinstance(n, (ast.AugAssign, ast.AnnAssign, ast.NamedExpr, ast.Delete, ast.With, ast.Try, ast.While)):
+                    self.err(call, "helper {}: {} in a helper".format(h.name, type(n).__name__))
+                if isinstance(n, ast.Name) and isinstance(n.ctx, ast.Store):
+                    if n.id in params:
+                        self.err(call, "helper {}: rebinds its parameter {}".format(h.name, n.id))
+                    local.add(n.id)
+        self.fresh += 1
+        ren = {n: "{}__h{}".format(n, self.fresh) for n in local}
+
+        class Sub(ast.NodeTransformer):
+            def visit_Name(_, n):   # noqa: N805
+                if n.id in bound:
+                    return copy.deepcopy(bound[n.id])
+                if n.id in ren:
+                    return ast.copy_location(ast.Name(id=ren[n.id], ctx=n.ctx), n)
+                return n
+        return [ast.fix_missing_locations(Sub().visit(node)) for node in body]
 
     # ---- statements
     def update_stmt(self, s, k, v):
@@ -148,6 +251,14 @@ class FnTr:
             return pad + "({}, {})".format(self.dexpr(s.value), "true" if warned else "false")
         if isinstance(s, ast.Expr) and isinstance(s.value, ast.Call) and ast.unparse(s.value.func) == "warnings.warn":
             return self.stmts(rest, True, ind)
+        if isinstance(s, ast.Expr) and isinstance(s.value, ast.Call):
+            inl = self.inline(s.value)
+            if inl is not None:
+                self.depth += 1
+                try:
+                    return self.stmts(inl + rest, warned, ind)
+                finally:
+                    self.depth -= 1
         if isinstance(s, ast.Assign) and len(s.targets) == 1 and isinstance(s.targets[0], ast.Name):
             name = s.targets[0].id
             if isinstance(s.value, ast.Call) and isinstance(s.value.func, ast.Name) and s.value.func.id in ("OrderedDict", "deepcopy"):
@@ -169,15 +280,20 @@ class FnTr:
                 self.err(s, "loop mutates the dict it iterates over")
             return pad + "let {t} := fold_left (fun {t} kv => let '({k}, {v}) := kv in {val}) {src} {t} in\n".format(
                 t=self.v(tgt), k=self.v(k), v=self.v(v), val=val, src=self.v(src)) + self.stmts(rest, warned, ind)
-        if isinstance(s, ast.If) and not s.orelse:
+        if isinstance(s, ast.If):
             if not self.always_returns(s.body):
                 self.err(s, "if-body that does not end in return")
             return pad + "if {} then\n{}\n{}else\n{}".format(
-                self.cond(s.test), self.stmts(s.body, warned, ind + 1), pad, self.stmts(rest, warned, ind + 1))
+                self.cond(s.test), self.stmts(s.body, warned, ind + 1), pad, self.stmts(list(s.orelse) + rest, warned, ind + 1))
         self.err(s, "statement " + type(s).__name__)
 
     def always_returns(self, body):
-        return bool(body) and isinstance(body[-1], ast.Return)
+        if not body:
+            return False
+        last = body[-1]
+        if isinstance(last, ast.Return):
+            return True
+        return isinstance(last, ast.If) and bool(last.orelse) and self.always_returns(last.body) and self.always_returns(last.orelse)
 
     def gallina(self, gname, types, rettype):
         body = translate.strip_doc(self.fn.body)
@@ -245,14 +361,15 @@ def gen_units(repo):
     if len(table) < len(opnames):
         out.append("  | _ => None")
     out += ["  end.", ""]
-    upd = FnTr(fdefs["__update_unit_exponent_count_in_dict"], mutator=True)
+    helpers = {n: f for n, f in fdefs.items() if n not in fnames and n != "__update_unit_exponent_count_in_dict"}
+    upd = FnTr(fdefs["__update_unit_exponent_count_in_dict"], mutator=True, helpers=helpers)
     if len(upd.params) != 3:
         raise TranslateError(UNITS, upd.fn, "update helper arity")
     out.append("(* __update_unit_exponent_count_in_dict: returns the mutated dictionary *)")
     out.append(upd.gallina("update_count", ["umap", "sym", "Q"], "umap"))
     arities = {}
     for f in fnames:
-        tr = FnTr(fdefs[f])
+        tr = FnTr(fdefs[f], helpers=helpers)
         arities[f] = len(tr.params)
         if arities[f] not in (1, 2):
             raise TranslateError(UNITS, tr.fn, "arity")
